@@ -266,7 +266,8 @@ Proof.
   destruct (index_ok data (length data - 1)) as [last Hl]; [lia|].
   destruct (numbers_decode body 59) as [|e [|c [|r rest]]]; try (eexists; reflexivity).
   destruct (checked_sub1 c), (checked_sub1 r); try (eexists; reflexivity).
-  rewrite Hl. cbn [bind]. eexists; reflexivity.
+  rewrite Hl. cbn [bind]. cbv zeta.
+  destruct (negb (N.land e 128 =? 0) || negb (N.land e 64 =? 0) && (1 <? N.land e 3)); eexists; reflexivity.
 Qed.
 
 Theorem dec_osc_total data : (4 <= length data)%nat -> exists r, dec_osc data = Ok r.
@@ -394,6 +395,7 @@ Proof.
   destruct (checked_sub1 c) as [col'|] eqn:Ec; [|discriminate].
   destruct (checked_sub1 r) as [row'|] eqn:Er; [|discriminate].
   destruct (index data (length data - 1)) as [last| | |]; cbn [bind]; try discriminate.
+  cbv zeta. destruct (negb (N.land e 128 =? 0) || negb (N.land e 64 =? 0) && (1 <? N.land e 3)); [discriminate|].
   intros H. apply checked_sub1_spec in Ec, Er. subst c r.
   exists body, e, rest, last. split; [reflexivity|].
   assert (col' = col /\ row' = row /\
